@@ -73,7 +73,7 @@ PROPS = {
     "C05": _p("other", "deductive: NumpyStream.run (array and dict input), PandasStream.run (RangeIndex and arbitrary unique labels) and the real Call.run / Config parsing under them, for six configuration shapes with symbolic table length, contents, time axis and window bounds: every argument handed to a (probe) test is the base column filtered by exactly the window predicate start <= t < end, the yielded ContextResult carries that predicate, the column and the probe's return value. bounded: Call.run exhaustively over a key universe; all five front ends incl. NetcdfStream, XarrayStream and QcConfig.run against the direct call on concrete tables", ["pandas DataFrame / Series as (columns, row-selection predicate) (pyvc/tablemodel.py)", "test functions as probes: flags are an uninterpreted function of (test, row); equality with the direct call then follows from equality of the arguments (determinism of the real tests: C01)"], assumptions=["configuration structure enumerated over the shapes in contracts/streams.py SHAPES (bounded), data dimension symbolic", "XarrayStream and NetcdfStream only in the bounded differential (xarray internals, private map_index_queries)"], bounded=["CallRun: 16 x 16 keyword sets x 3 callee behaviours (exhaustive over the universe)", "FrontEnds: 5 front ends x 4 tables x 6 windows"]),
     "C18": _p("other", "deductive: the 'faults' configuration shape (a raising test, an unknown test name, an unknown module, an absent stream id, a test whose required inputs the stream does not supply) on NumpyStream / PandasStream with symbolic tables: the healthy calls yield exactly what they yield alone (per-yield postcondition of C05, which mentions no other call), failing entries yield no CallResult, nothing raises, argument buffers are not written; collect_results tolerates ContextResults without results (C06 cases with has=False). bounded: Call.run returns [] on any Exception and hands the callee deep copies (exhaustive over the key universe)", ["as C05, C06"], bounded=["CallRun, FrontEnds as in C05"]),
     "C07": _p("other", "bounded: generated configurations (1-2 contexts, 1-2 streams, qartod/argo/axds tests with scalar/list parameters, windows, sprinkled unknown module and test names) in every layout that can express them (contexts list, single context, bare stream mapping, bare module mapping) x 8 carriers (dict, OrderedDict, YAML text, JSON text, StringIO, str path to YAML, Path to JSON, xarray Dataset attribute) on the real Config: the calls (stream, module, test, parameters, window) equal the statement's. deductive: utils.dict_depth (recursive contract over a ghost mapping); the ContextConfig skipping of unknown names runs for real inside the C05/C18 stream proofs. The content of this property is the round trip through the YAML / JSON / xarray libraries, which no contract within reach expresses - hence mostly bounded", ["ruamel.yaml, json, xarray attribute round trips (exercised, not modelled)"], bounded=["14 generated configurations (quick) / 82 (thorough) x up to 4 layouts x 8 carriers"]),
-    "C06": _p("proof", "collect_results_list / collect_results_dict on a symbolic number of ContextResults over n rows: the loop is cut with the invariant 'mask(i) <=> no processed result context covers i; covered rows hold that context's flag and the source columns', the prior state being an arbitrary one (absent key, accumulators, or the arrays of an earlier all-covering context). Context arrays are selections (base column, window predicate), so no rank arithmetic is needed. Order independence for disjoint windows: the postcondition does not mention the order", ["ContextResults as produced by the streams: arrays are the selections of full columns by subset_indexes, at most one CallResult per ContextResult, not writable"], assumptions=["cut cases: all contexts of the run under consideration share one (stream, module, test) key (CollectMulti: two tests per context, two concrete contexts, symbolic rows / windows / flags); entries of other keys are untouched because a dict entry is reached only through its key (Python dict semantics) and keys of different triples differ", "windows of contexts with a result are pairwise disjoint (the statement's premise)"]),
+    "C06": _p("proof", "collect_results_list / collect_results_dict on a symbolic number of ContextResults over n rows: the loop is cut with the invariant 'mask(i) <=> no processed result context covers i; covered rows hold that context's flag and the source columns', the prior state being an arbitrary one (absent key, accumulators, or the arrays of an earlier all-covering context). Context arrays are selections (base column, window predicate), so no rank arithmetic is needed. Order independence for disjoint windows: the postcondition does not mention the order", ["ContextResults as produced by the streams: arrays are the selections of full columns by subset_indexes, at most one CallResult per ContextResult, not writable"], assumptions=["cut cases: all contexts of the run under consideration share one (stream, module, test) key (CollectMulti: two tests per context, two concrete contexts, symbolic rows / windows / flags); entries of other keys are untouched because a dict entry is reached only through its key (Python dict semantics) and keys of different triples differ", "windows of contexts with a result are pairwise disjoint (the statement's premise)"], bounded=["CollectEndToEnd: the real NumpyStream / PandasStream (default, permuted and offset row labels) + the real collect_results on 2 tables x 3 window layouts; flags compared with the direct call on each window"]),
     "C19": _p("other", "deductive: cf_safe_name over z3 strings (position-wise: only safe characters, never a leading digit, safe characters kept) with re.match/re.sub as point-wise contracts; column_from_collected_result against the label specification; PandasStore.save with the result loop cut: one arbitrary iteration from an arbitrary frame adds exactly the columns the statement names (axes iff write_axes and absent and non-empty, data iff kept and write_data, the result column iff kept and its name is free; include/exclude as uninterpreted membership) for all 16 filter/flag settings; compute_aggregate appends aggregate(all results). bounded: uniqueness of the column per result on concrete stream ids", ["pandas DataFrame as an ordered map name -> column (membership, item assignment)", "re.match / re.sub on single-character classes (ASCII)"], assumptions=["the induction from 'one arbitrary iteration adds the stated columns' to the whole frame is the loop-cut meta-argument (the body reads only the frame and its own result)", "row alignment of the columns is inherited from collect_results (C06)"], bounded=["StoreUnique: 21 pairs of stream ids x 2 test sets on the real PandasStore.save"]),
     "C20": _p("other", "deductive: evaluate_stack against the value of a ghost expression tree, per constructor with the recursive calls bound to the contract (induction on depth), for an arbitrary stack prefix - hence independent of the never-cleared module stack; eval_fx relative to the grammar contract; _validate_fx token loop (stateless cut) against the statement's token classes over z3 strings. bounded: the pyparsing grammar itself (combinators built at run time) against ordinary arithmetic on generated expressions with failing parses in between", ["pyparsing grammar BNF(): contract 'parseString appends the postfix form' (bounded check)", "builtins.float(str): parsability and value uninterpreted; character classes ASCII"], assumptions=["QcConfigCreator.create_config (xarray + scipy CubicSpline over climatology files): no contract within reach expresses the interpolation; this part of C20 is decided by a bounded check only"], bounded=["grammar: expressions of depth <= 1 (quick) / 2 (thorough) over 3 literals, 4 statistics, + - * /, unary minus, parentheses; histories of 1-2 earlier evaluations incl. failing parses", "create_config: 4 synthetic climatologies constant in time (4x5 grid, written as netCDF3 and read back by the real code) x 8 bounding boxes (edges on and between grid lines, single cell, whole grid) x 2 (quick) / 3 (thorough) date ranges; spans compared with the expressions on numpy min/max/mean/std of the cells inside the box"]),
     "C15": _p("other", "deductive: every QC test executed with opaque input carriers - obligation carrier-opaque (the test touches its data inputs only through np.array(.) and its time input only through mapdates(.)), so its flags are a function of the normalised series; bounded: the carrier conversions themselves (numpy / pandas / dask behaviour) are checked by running the real functions on every carrier of concrete series and comparing with the canonical call", [T_GEOD, T_ROLL, T_STAT], bounded=["carrier conversion facts: 8 data carriers x 10 time carriers on sampled concrete series (12 per test quick, 120 thorough), flags compared with the canonical ndarray/datetime64[ns] call"]),
@@ -85,5 +85,5 @@ PROPS = {
     "C11": _p("proof", "flat_line_test with its closures: window of floor(threshold/D)+1 points ending at k, range of present values < tolerance; min/max reductions as ground objects with cross-instantiated bounds", [T_STAT]),
     "C12": _p("proof", "attenuated_signal_test: dispatch, min_periods arithmetic, flag table and the arguments handed to the statistic; the statistics themselves are uninterpreted (proof relative to the rolling contract)", [T_ROLL, T_STAT], bounded=["pandas rolling NaN rule: compared with pandas on the conformance grid (bounded)"]),
     "C13": _p("proof", "density_inversion_test pair flagging in both cast directions incl. any()-guards, pressure_increasing_test relative to the sign of the (uninterpreted) mean step", [T_STAT]),
-    "C14": _p("proof", "location_test: bounding box, one-sided missing, hop distance through the great_circle_distance contract, shape and bbox validation", [T_GEOD]),
+    "C14": _p("proof", "location_test: bounding box, one-sided missing, hop distance through the great_circle_distance contract, shape and bbox validation", [T_GEOD], bounded=["LocationShapes: 12 pairs of 1-D / 2-D / 3-D shapes (equal and different element counts) x range_max given or not on the real function (the deductive cases are about 1-D series)"]),
 }
